@@ -11,9 +11,15 @@ pub fn absolute<T: AsRef<Path>>(path: T) -> Result<PathBuf, E> {
     for comp in path.components() {
         match comp {
             C::CurDir => (),
-            C::ParentDir => {
-                out.pop().ok_or(E::CannotBeExported(ERROR_MESSAGE))?;
-            }
+            C::ParentDir => match out.last() {
+                // the path must not climb above the root
+                None | Some(C::RootDir | C::Prefix(_)) => {
+                    return Err(E::CannotBeExported(ERROR_MESSAGE))
+                }
+                Some(_) => {
+                    out.pop();
+                }
+            },
             comp => out.push(comp),
         }
     }
